@@ -110,6 +110,27 @@ parser { one("x", "y"); }
 macro out_of(loop l) { break l; }
 parser { loop q { "x"; out_of(a); } }
 ''', 'reject'))
+    # the same macro body instantiated twice with different outputs: per-instantiation actions attached to one regex literal of the body
+    P.append(('out-arg-append-regex-twice', '''out str[4] p;
+out str[4] q;
+hook h1;
+macro field(out tgt) { tgt += /[a-z]+/; ";"; }
+parser { field(p); field(q); h1(); }
+''', 'same'))
+    P.append(('match-arg-used-twice-with-appends', '''out str[4] p;
+out str[4] q;
+out int n = 0;
+macro two(match m, out o1, out o2) { o1 += m; ","; n = [n + 1]; o2 += m; }
+parser { two(/[0-9]+/, p, q); ";"; two("ab", q, p); }
+''', 'same'))
+    # a literal / expression / pattern where a named entity (out, hook, macro, loop, finishcode) is declared: a diagnosed error for every form
+    decl = {'out': 'macro k(out x) { x = 1; }', 'hook': 'macro k(hook x) { x(); }', 'macro': 'macro k(macro x) { x(); }',
+            'finishcode': 'macro k(finishcode x) { finish x; }', 'loop': 'macro k(loop x) { break x; }'}
+    bad_args = {'number': '5', 'string': '"s"', 'bool': 'true', 'math': '[a + 1]', 'regex': '/a/', 'concat': '("a" "b")'}
+    for kind, dtext in decl.items():
+        for an, atext in bad_args.items():
+            body = f'loop q {{ "x"; k({atext}); }}' if kind == 'loop' else f'"x"; k({atext});'
+            P.append((f'wrong-kind-{an}-for-{kind}', HEAD + dtext + '\nparser { ' + body + ' }\n', 'reject'))
     # seeded variations
     lits = ['"ab"', '"x"i', '/[0-9]+/', '/a|bc/', '"\\n"', '/[^,]+/']
     for i in range(n_random):
